@@ -15,6 +15,10 @@ SPEC = os.path.join(ROOT, "spec")
 HARNESS = os.path.join(ROOT, "harness")
 WORKROOT = os.path.join(ROOT, ".work")
 EVIDENCE = os.path.join(ROOT, "evidence")
+if os.path.realpath(REPO) != "/repo":
+    # a run against a scratch worktree (development aid) says nothing about /repo: its evidence and
+    # replay files stay out of the committed evidence directory
+    EVIDENCE = os.path.join(WORKROOT, "evidence-scratch")
 REPLAYS = os.path.join(EVIDENCE, "replay")
 
 GOENV = {
